@@ -36,6 +36,9 @@ pub enum MStep<M, R> {
     Cont(M, u8),
     /// The operation is diagnosed with a panic whose message contains this text.
     Panic(String),
+    /// Completion that is only permitted as a *spurious* wake-up: allowed iff some other thread has
+    /// an ordinary transition; never counts as "able to progress".
+    Spurious(M, R),
 }
 
 pub trait Family: 'static + Sized {
@@ -49,6 +52,10 @@ pub trait Family: 'static + Sized {
 
     fn make_objs(cfg: &Self::Cfg, nthreads: usize) -> Self::Objs;
     fn new_locals(cfg: &Self::Cfg, t: usize) -> Self::Locals;
+    /// Called by the spawning thread right after `thread::spawn` returned the child's handle.
+    fn on_spawn(_objs: &Self::Objs, _child: usize, _thread: &shuttle::thread::Thread) {}
+    /// Called by every thread when it starts running (inside the Shuttle task).
+    fn on_start(_objs: &Self::Objs, _t: usize) {}
     /// Execute the real operation (inside a Shuttle task).
     fn exec(objs: &Self::Objs, l: &mut Self::Locals, t: usize, op: &Self::Op) -> Self::Res;
     /// Called when a thread's program is finished. Implementations must *leak* guards the thread
@@ -158,6 +165,7 @@ fn run_thread<F: Family>(ctx: Arc<SS<Ctx<F>>>, t: usize) {
         })
     };
     push(0, EKind::Start);
+    F::on_start(&c.objs, t);
     let mut locals = F::new_locals(&c.prog.0.cfg, t);
     let ops = &c.prog.0.threads[t];
     for (i, op) in ops.iter().enumerate() {
@@ -171,6 +179,7 @@ fn run_thread<F: Family>(ctx: Arc<SS<Ctx<F>>>, t: usize) {
                     run_thread::<F>(ctx2, ch)
                 });
                 let tid: usize = h.thread().id().into();
+                F::on_spawn(&c.objs, ch, h.thread());
                 c.handles.borrow_mut()[ch] = Some(h);
                 push(i, EKind::ChildTask(tid));
                 GRes::Spawned
@@ -448,8 +457,23 @@ pub fn g_init<F: Family>(p: &Program<F>) -> GState<F> {
     }
 }
 
-/// All transitions of thread `t` from `s`.
+/// All transitions of thread `t` from `s` (spurious completions only if another thread can move).
 pub fn g_steps_of<F: Family>(p: &Program<F>, s: &GState<F>, t: usize, strict: bool) -> Vec<(Label<F::Res>, GState<F>)> {
+    let raw = g_steps_raw(p, s, t, strict);
+    if raw.iter().any(|(sp, _, _)| *sp) {
+        let other = (0..p.threads.len()).any(|u| u != t && g_steps_raw(p, s, u, strict).iter().any(|(sp, _, _)| !*sp));
+        raw.into_iter().filter(|(sp, _, _)| !*sp || other).map(|(_, l, n)| (l, n)).collect()
+    } else {
+        raw.into_iter().map(|(_, l, n)| (l, n)).collect()
+    }
+}
+
+/// Ordinary (non-spurious) transitions only: what counts as "able to progress".
+pub fn g_steps_ordinary<F: Family>(p: &Program<F>, s: &GState<F>, t: usize, strict: bool) -> Vec<(Label<F::Res>, GState<F>)> {
+    g_steps_raw(p, s, t, strict).into_iter().filter(|(sp, _, _)| !*sp).map(|(_, l, n)| (l, n)).collect()
+}
+
+fn g_steps_raw<F: Family>(p: &Program<F>, s: &GState<F>, t: usize, strict: bool) -> Vec<(bool, Label<F::Res>, GState<F>)> {
     let mut out = Vec::new();
     if s.panic.is_some() || s.th[t].st != St::Active {
         return out;
@@ -459,7 +483,7 @@ pub fn g_steps_of<F: Family>(p: &Program<F>, s: &GState<F>, t: usize, strict: bo
     if pc == ops.len() {
         let mut n = s.clone();
         n.th[t].st = St::Finished;
-        out.push((Label::Finish, n));
+        out.push((false, Label::Finish, n));
         return out;
     }
     let done = |s: &GState<F>, r: GRes<F::Res>| {
@@ -473,11 +497,11 @@ pub fn g_steps_of<F: Family>(p: &Program<F>, s: &GState<F>, t: usize, strict: bo
         GOp::Spawn(c) => {
             let mut n = done(s, GRes::Spawned);
             n.th[*c].st = St::Active;
-            out.push((Label::Ret(pc, GRes::Spawned), n));
+            out.push((false, Label::Ret(pc, GRes::Spawned), n));
         }
         GOp::Join(c) => {
             if s.th[*c].st == St::Finished {
-                out.push((Label::Ret(pc, GRes::Joined(true)), done(s, GRes::Joined(true))));
+                out.push((false, Label::Ret(pc, GRes::Joined(true)), done(s, GRes::Joined(true))));
             }
         }
         GOp::Op(o) => {
@@ -486,18 +510,23 @@ pub fn g_steps_of<F: Family>(p: &Program<F>, s: &GState<F>, t: usize, strict: bo
                     MStep::Done(m, r) => {
                         let mut n = done(s, GRes::R(r.clone()));
                         n.m = m;
-                        out.push((Label::Ret(pc, GRes::R(r)), n));
+                        out.push((false, Label::Ret(pc, GRes::R(r)), n));
+                    }
+                    MStep::Spurious(m, r) => {
+                        let mut n = done(s, GRes::R(r.clone()));
+                        n.m = m;
+                        out.push((true, Label::Ret(pc, GRes::R(r)), n));
                     }
                     MStep::Cont(m, ph) => {
                         let mut n = s.clone();
                         n.m = m;
                         n.th[t].phase = ph;
-                        out.push((Label::Eps, n));
+                        out.push((false, Label::Eps, n));
                     }
                     MStep::Panic(cls) => {
                         let mut n = s.clone();
                         n.panic = Some(cls.clone());
-                        out.push((Label::Panic(cls), n));
+                        out.push((false, Label::Panic(cls), n));
                     }
                 }
             }
@@ -506,8 +535,9 @@ pub fn g_steps_of<F: Family>(p: &Program<F>, s: &GState<F>, t: usize, strict: bo
     out
 }
 
+/// Able to progress in the ordinary sense (spurious wake-ups do not count).
 pub fn g_enabled<F: Family>(p: &Program<F>, s: &GState<F>, t: usize, strict: bool) -> bool {
-    !g_steps_of(p, s, t, strict).is_empty()
+    !g_steps_ordinary(p, s, t, strict).is_empty()
 }
 
 #[derive(Clone, Debug, PartialEq, Eq, Hash, PartialOrd, Ord)]
@@ -600,38 +630,209 @@ pub struct CosimResult<R: Ord> {
     pub task_of: Vec<Option<usize>>,
 }
 
-fn eps_closure_of<F: Family>(
-    p: &Program<F>,
-    cands: &mut HashSet<GState<F>>,
-    t: usize,
-    called: &[usize],
-    strict: bool,
-) {
-    let mut work: Vec<GState<F>> = cands.iter().cloned().collect();
-    while let Some(s) = work.pop() {
-        if s.th[t].st != St::Active {
-            continue;
+
+// ---- memoised model (per program) -----------------------------------------------------------
+
+pub struct Tr<R> {
+    pub spurious: bool,
+    pub label: Label<R>,
+    pub next: u32,
+}
+
+#[derive(Clone, PartialEq, Eq, Hash)]
+enum Ev<R> {
+    Closure(u8, bool),
+    Ret(u8, u16, GRes<R>),
+    /// keep states in which every thread that is able to run (and whose gate is open) is offered
+    Filter(u64, u64),
+}
+
+/// Interned model states, cached transitions, interned candidate sets and memoised NFA steps of
+/// one program. States and candidate sets recur massively across the executions of a program, so
+/// co-simulation of an execution is a few dozen hash look-ups.
+pub struct MCache<F: Family> {
+    pub strict: bool,
+    pub states: Vec<GState<F>>,
+    idx: HashMap<GState<F>, u32>,
+    trans: HashMap<(u32, u8), Rc<Vec<Tr<F::Res>>>>,
+    sets: Vec<Rc<Vec<u32>>>,
+    set_idx: HashMap<Rc<Vec<u32>>, u32>,
+    memo: HashMap<(u32, Ev<F::Res>), u32>,
+    pub init_set: u32,
+}
+
+impl<F: Family> MCache<F> {
+    pub fn new(p: &Program<F>, strict: bool) -> Self {
+        let mut c = MCache {
+            strict,
+            states: Vec::new(),
+            idx: HashMap::new(),
+            trans: HashMap::new(),
+            sets: Vec::new(),
+            set_idx: HashMap::new(),
+            memo: HashMap::new(),
+            init_set: 0,
+        };
+        let i = c.intern(g_init(p));
+        c.init_set = c.intern_set(vec![i]);
+        c
+    }
+
+    pub fn intern(&mut self, s: GState<F>) -> u32 {
+        if let Some(i) = self.idx.get(&s) {
+            return *i;
         }
-        let pc = s.th[t].pc as usize;
-        // an operation's hidden micro-transitions may only happen once it has been called
-        if pc < p.threads[t].len() && called[t] <= pc {
-            continue;
+        let i = self.states.len() as u32;
+        self.states.push(s.clone());
+        self.idx.insert(s, i);
+        i
+    }
+
+    fn intern_set(&mut self, mut v: Vec<u32>) -> u32 {
+        v.sort_unstable();
+        v.dedup();
+        let rc = Rc::new(v);
+        if let Some(i) = self.set_idx.get(&rc) {
+            return *i;
         }
-        for (l, n) in g_steps_of(p, &s, t, strict) {
-            match l {
-                Label::Eps | Label::Finish => {
-                    if cands.insert(n.clone()) {
-                        work.push(n);
-                    }
+        let i = self.sets.len() as u32;
+        self.sets.push(rc.clone());
+        self.set_idx.insert(rc, i);
+        i
+    }
+
+    pub fn set(&self, id: u32) -> Rc<Vec<u32>> {
+        self.sets[id as usize].clone()
+    }
+
+    pub fn raw(&mut self, p: &Program<F>, s: u32, t: usize) -> Rc<Vec<Tr<F::Res>>> {
+        if let Some(r) = self.trans.get(&(s, t as u8)) {
+            return r.clone();
+        }
+        let st = self.states[s as usize].clone();
+        let v: Vec<Tr<F::Res>> = g_steps_raw(p, &st, t, self.strict)
+            .into_iter()
+            .map(|(sp, l, n)| Tr {
+                spurious: sp,
+                label: l,
+                next: self.intern(n),
+            })
+            .collect();
+        let rc = Rc::new(v);
+        self.trans.insert((s, t as u8), rc.clone());
+        rc
+    }
+
+    /// able to progress in the ordinary sense
+    pub fn enabled(&mut self, p: &Program<F>, s: u32, t: usize) -> bool {
+        self.raw(p, s, t).iter().any(|tr| !tr.spurious)
+    }
+
+    /// may spurious completions of `t` be taken in `s`?
+    fn spurious_ok(&mut self, p: &Program<F>, s: u32, t: usize) -> bool {
+        (0..p.threads.len()).any(|u| u != t && self.enabled(p, s, u))
+    }
+
+    fn closure(&mut self, p: &Program<F>, set: u32, t: usize, open: bool) -> u32 {
+        let key = (set, Ev::Closure(t as u8, open));
+        if let Some(r) = self.memo.get(&key) {
+            return *r;
+        }
+        let mut all: HashSet<u32> = self.sets[set as usize].iter().cloned().collect();
+        let mut work: Vec<u32> = all.iter().cloned().collect();
+        while let Some(s) = work.pop() {
+            let (active, at_end) = {
+                let st = &self.states[s as usize];
+                (st.th[t].st == St::Active, st.th[t].pc as usize == p.threads[t].len())
+            };
+            if !active || (!at_end && !open) {
+                continue;
+            }
+            for tr in self.raw(p, s, t).iter() {
+                if matches!(tr.label, Label::Eps | Label::Finish) && all.insert(tr.next) {
+                    work.push(tr.next);
                 }
-                _ => {}
             }
         }
+        let r = self.intern_set(all.into_iter().collect());
+        self.memo.insert(key, r);
+        r
+    }
+
+    fn ret(&mut self, p: &Program<F>, set: u32, t: usize, op: usize, r: &GRes<F::Res>) -> u32 {
+        let key = (set, Ev::Ret(t as u8, op as u16, r.clone()));
+        if let Some(x) = self.memo.get(&key) {
+            return *x;
+        }
+        let mut next: Vec<u32> = Vec::new();
+        for s in self.set(set).iter() {
+            if self.states[*s as usize].th[t].pc as usize != op {
+                continue;
+            }
+            let sp_ok = self.spurious_ok(p, *s, t);
+            for tr in self.raw(p, *s, t).iter() {
+                if tr.spurious && !sp_ok {
+                    continue;
+                }
+                if let Label::Ret(i, rr) = &tr.label {
+                    if *i == op && rr == r {
+                        next.push(tr.next);
+                    }
+                }
+            }
+        }
+        let x = self.intern_set(next);
+        self.memo.insert(key, x);
+        x
+    }
+
+    /// `offered`: bit t set iff thread t is offered; `gates`: bit t set iff t's hidden/visible
+    /// transitions may be considered (its current op has been called, or its program is finished).
+    fn filter(&mut self, p: &Program<F>, set: u32, offered: u64, gates: u64) -> u32 {
+        let key = (set, Ev::Filter(offered, gates));
+        if let Some(x) = self.memo.get(&key) {
+            return *x;
+        }
+        let n = p.threads.len();
+        let mut keep = Vec::new();
+        for s in self.set(set).iter() {
+            let mut ok = true;
+            for t in 0..n {
+                if offered & (1 << t) != 0 || gates & (1 << t) == 0 {
+                    continue;
+                }
+                if self.states[*s as usize].th[t].st == St::Active && self.enabled(p, *s, t) {
+                    ok = false;
+                    break;
+                }
+            }
+            if ok {
+                keep.push(*s);
+            }
+        }
+        let x = self.intern_set(keep);
+        self.memo.insert(key, x);
+        x
+    }
+
+    pub fn stats(&self) -> (usize, usize, usize) {
+        (self.states.len(), self.sets.len(), self.memo.len())
     }
 }
 
+fn gates_mask<F: Family>(p: &Program<F>, pcs: &[usize], called: &[usize], announced: &[Option<usize>]) -> u64 {
+    let mut g = 0u64;
+    for t in 0..p.threads.len() {
+        let pc = pcs[t];
+        if (pc == p.threads[t].len() || called[t] > pc) && announced[t].is_some() {
+            g |= 1 << t;
+        }
+    }
+    g
+}
+
 /// Replay the log of one implementation execution on the model (NFA over candidate model states).
-pub fn cosim<F: Family>(p: &Program<F>, rec: &ExecRecord<F::Res>, strict: bool, check_enabled: bool) -> CosimResult<F::Res> {
+pub fn cosim<F: Family>(p: &Program<F>, mc: &mut MCache<F>, rec: &ExecRecord<F::Res>, check_enabled: bool) -> CosimResult<F::Res> {
     let n = p.threads.len();
     let mut task_of: Vec<Option<usize>> = vec![None; n];
     task_of[0] = Some(0);
@@ -639,30 +840,32 @@ pub fn cosim<F: Family>(p: &Program<F>, rec: &ExecRecord<F::Res>, strict: bool, 
     thread_of.insert(0, 0);
     let mut res: Vec<Vec<GRes<F::Res>>> = vec![Vec::new(); n];
     let mut called = vec![0usize; n];
-    let mut cands: HashSet<GState<F>> = HashSet::new();
-    cands.insert(g_init(p));
+    let mut pcs = vec![0usize; n]; // ops returned so far per thread (uniform over candidates)
+    let mut cands: u32 = mc.init_set;
     let mut fail: Option<CosimFail> = None;
     let mut li = 0usize;
     let log = &rec.log;
-    let mut running: Option<usize> = None; // thread index currently running
-
-    // decisions are numbered from 1: stamp d means "after the d-th scheduler call"
+    let mut running: Option<usize> = None;
     let ndec = rec.path.len();
+
+    macro_rules! sample_state {
+        () => {
+            mc.set(cands).first().map(|s| format!("{:?}", mc.states[*s as usize])).unwrap_or_default()
+        };
+    }
+
     for d in 1..=ndec + 1 {
-        // entries with stamp d-1 were produced after decision d-1 and before decision d
         let stamp = d - 1;
-        if stamp >= 1 {
+        if stamp >= 1 && fail.is_none() {
             if let Some(t) = running {
-                if fail.is_none() {
-                    eps_closure_of(p, &mut cands, t, &called, strict);
-                }
+                let open = pcs[t] < p.threads[t].len() && called[t] > pcs[t];
+                cands = mc.closure(p, cands, t, open);
             }
         }
         while li < log.len() && log[li].stamp == stamp {
             let e = &log[li];
             li += 1;
             if fail.is_some() {
-                // keep collecting results for the outcome
                 if let EKind::Ret(r) = &e.kind {
                     res[e.thread].push(r.clone());
                 }
@@ -699,7 +902,7 @@ pub fn cosim<F: Family>(p: &Program<F>, rec: &ExecRecord<F::Res>, strict: bool, 
                 }
                 EKind::Call => {
                     called[e.thread] = e.op + 1;
-                    eps_closure_of(p, &mut cands, e.thread, &called, strict);
+                    cands = mc.closure(p, cands, e.thread, true);
                 }
                 EKind::ChildTask(tid) => {
                     if let GOp::Spawn(c) = &p.threads[e.thread][e.op] {
@@ -709,21 +912,9 @@ pub fn cosim<F: Family>(p: &Program<F>, rec: &ExecRecord<F::Res>, strict: bool, 
                 }
                 EKind::Ret(r) => {
                     res[e.thread].push(r.clone());
-                    let mut next: HashSet<GState<F>> = HashSet::new();
-                    for s in cands.iter() {
-                        if s.th[e.thread].pc as usize != e.op {
-                            continue;
-                        }
-                        for (l, n) in g_steps_of(p, s, e.thread, strict) {
-                            if let Label::Ret(i, rr) = &l {
-                                if *i == e.op && rr == r {
-                                    next.insert(n);
-                                }
-                            }
-                        }
-                    }
-                    if next.is_empty() {
-                        let sample = cands.iter().next().map(|s| format!("{:?}", s)).unwrap_or_default();
+                    let next = mc.ret(p, cands, e.thread, e.op, r);
+                    if mc.set(next).is_empty() {
+                        let sample = sample_state!();
                         fail = Some(CosimFail {
                             kind: FailKind::Ret,
                             culprit: crate::drive::op_kind_name(&format!("{:?}", OpDbg(&p.threads[e.thread][e.op]))),
@@ -734,69 +925,63 @@ pub fn cosim<F: Family>(p: &Program<F>, rec: &ExecRecord<F::Res>, strict: bool, 
                                 e.op,
                                 p.threads[e.thread][e.op],
                                 r,
-                                cands.len(),
+                                mc.set(cands).len(),
                                 sample
                             ),
                         });
                     } else {
                         cands = next;
-                        eps_closure_of(p, &mut cands, e.thread, &called, strict);
+                        pcs[e.thread] = e.op + 1;
+                        let open = pcs[e.thread] < p.threads[e.thread].len() && called[e.thread] > pcs[e.thread];
+                        cands = mc.closure(p, cands, e.thread, open);
                     }
                 }
                 EKind::End => {
-                    eps_closure_of(p, &mut cands, e.thread, &called, strict);
+                    cands = mc.closure(p, cands, e.thread, false);
                 }
             }
         }
         if d > ndec {
             break;
         }
-        // decision d
         let node = &rec.path[d - 1];
         match (&node.kind, node.chosen()) {
             (NodeKind::Task { offered, .. }, alt) => {
                 if check_enabled && fail.is_none() {
-                    // every model-enabled thread must be offered
-                    let offered_threads: HashSet<usize> =
-                        offered.iter().filter_map(|o| thread_of.get(&o.id).cloned()).collect();
-                    let before = cands.len();
-                    let mut example = None;
-                    cands.retain(|s| {
-                        for t in 0..n {
-                            if s.th[t].st == St::Active && !offered_threads.contains(&t) {
-                                // is t enabled in s?  (hidden transitions only once the op is called)
-                                let pc = s.th[t].pc as usize;
-                                let may_move = pc == p.threads[t].len() || called[t] > pc;
-                                if may_move && g_enabled(p, s, t, strict) {
-                                    // a thread the model can run, but the runtime does not offer.
-                                    // exception: a thread that has not started yet is identified
-                                    // only through its spawn announcement.
-                                    if task_of[t].is_some() {
-                                        if example.is_none() {
-                                            example = Some((t, format!("{:?}", s)));
-                                        }
-                                        return false;
-                                    }
+                    let mut mask = 0u64;
+                    for o in offered {
+                        if let Some(t) = thread_of.get(&o.id) {
+                            mask |= 1 << *t;
+                        }
+                    }
+                    let gates = gates_mask(p, &pcs, &called, &task_of);
+                    let next = mc.filter(p, cands, mask, gates);
+                    if mc.set(next).is_empty() {
+                        // diagnose
+                        let mut example = (0usize, String::new());
+                        'outer: for s in mc.set(cands).iter() {
+                            for t in 0..n {
+                                if mask & (1 << t) == 0 && gates & (1 << t) != 0 && mc.states[*s as usize].th[t].st == St::Active && mc.enabled(p, *s, t) {
+                                    example = (t, format!("{:?}", mc.states[*s as usize]));
+                                    break 'outer;
                                 }
                             }
                         }
-                        true
-                    });
-                    if cands.is_empty() {
-                        let (t, s) = example.unwrap();
                         fail = Some(CosimFail {
                             kind: FailKind::Enabled,
-                            culprit: pending_kind(p, t, &called),
+                            culprit: pending_kind(p, example.0, &called),
                             at_decision: d,
                             what: format!(
                                 "at decision {} the runtime offers tasks {:?} but in every model state consistent with the log some thread able to run is missing, e.g. thread {} in {} ({} candidates)",
                                 d,
                                 offered.iter().map(|o| o.id).collect::<Vec<_>>(),
-                                t,
-                                s,
-                                before
+                                example.0,
+                                example.1,
+                                mc.set(cands).len()
                             ),
                         });
+                    } else {
+                        cands = next;
                     }
                 }
                 running = match alt {
@@ -805,8 +990,6 @@ pub fn cosim<F: Family>(p: &Program<F>, rec: &ExecRecord<F::Res>, strict: bool, 
                 };
                 if let Alt::Task(id) = alt {
                     if running.is_none() && fail.is_none() {
-                        // a task we cannot map to a thread: it must be a freshly spawned child whose
-                        // announcement we have; otherwise the runtime invented a task
                         fail = Some(CosimFail {
                             kind: FailKind::Contract,
                             culprit: "unknown-task".into(),
@@ -816,11 +999,10 @@ pub fn cosim<F: Family>(p: &Program<F>, rec: &ExecRecord<F::Res>, strict: bool, 
                     }
                 }
             }
-            (NodeKind::Rand, _) => { /* same task keeps running */ }
+            (NodeKind::Rand, _) => {}
         }
     }
 
-    // ending
     let ending = match &rec.raw_ending {
         RawEnding::Ok => Ending::Ok,
         RawEnding::Stopped => Ending::Stopped,
@@ -832,31 +1014,44 @@ pub fn cosim<F: Family>(p: &Program<F>, rec: &ExecRecord<F::Res>, strict: bool, 
         }
     };
     if fail.is_none() {
+        let set = mc.set(cands);
         let ok = match &ending {
             Ending::Stopped => true,
-            Ending::Ok => cands
-                .iter()
-                .any(|s| s.panic.is_none() && (0..n).all(|t| s.th[t].st != St::Active)),
-            Ending::Deadlock(set) => cands.iter().any(|s| {
-                s.panic.is_none()
-                    && (0..n).all(|t| !g_enabled(p, s, t, strict))
-                    && (0..n).filter(|&t| s.th[t].st == St::Active).collect::<Vec<_>>() == *set
+            Ending::Ok => set.iter().any(|s| {
+                let st = &mc.states[*s as usize];
+                st.panic.is_none() && (0..n).all(|t| st.th[t].st != St::Active)
             }),
+            Ending::Deadlock(dset) => {
+                let mut found = false;
+                for s in set.iter() {
+                    let (nopanic, active): (bool, Vec<usize>) = {
+                        let st = &mc.states[*s as usize];
+                        (st.panic.is_none(), (0..n).filter(|&t| st.th[t].st == St::Active).collect())
+                    };
+                    if nopanic && active == *dset && (0..n).all(|t| !mc.enabled(p, *s, t)) {
+                        found = true;
+                        break;
+                    }
+                }
+                found
+            }
             Ending::Panic(msg) => {
-                // some candidate must be able to take a Panic transition whose class occurs in msg
-                cands.iter().any(|s| {
-                    (0..n).any(|t| {
-                        let pc = s.th[t].pc as usize;
-                        (pc == p.threads[t].len() || called[t] > pc)
-                            && g_steps_of(p, s, t, strict)
-                                .iter()
-                                .any(|(l, _)| matches!(l, Label::Panic(c) if msg.contains(c.as_str())))
-                    })
-                })
+                let mut found = false;
+                for s in set.iter() {
+                    for t in 0..n {
+                        let pc = mc.states[*s as usize].th[t].pc as usize;
+                        if pc == p.threads[t].len() || called[t] > pc {
+                            if mc.raw(p, *s, t).iter().any(|tr| matches!(&tr.label, Label::Panic(c) if msg.contains(c.as_str()))) {
+                                found = true;
+                            }
+                        }
+                    }
+                }
+                found
             }
         };
         if !ok {
-            let sample = cands.iter().next().map(|s| format!("{:?}", s)).unwrap_or_default();
+            let sample = sample_state!();
             let mut pend: Vec<String> = match &ending {
                 Ending::Deadlock(set) => set.iter().filter(|t| **t < n).map(|t| pending_kind(p, *t, &called)).collect(),
                 Ending::Panic(m) => vec![format!("panic:{}", m.chars().take(60).collect::<String>())],
@@ -871,7 +1066,7 @@ pub fn cosim<F: Family>(p: &Program<F>, rec: &ExecRecord<F::Res>, strict: bool, 
                 what: format!(
                     "execution ended with {:?} but no model state consistent with the log ends that way ({} candidates, e.g. {})",
                     ending,
-                    cands.len(),
+                    mc.set(cands).len(),
                     sample
                 ),
             });
@@ -883,7 +1078,6 @@ pub fn cosim<F: Family>(p: &Program<F>, rec: &ExecRecord<F::Res>, strict: bool, 
         task_of,
     }
 }
-
 
 /// All non-decreasing k-tuples over 0..n (multisets), in lexicographic order.
 pub fn nondecreasing_tuples(n: usize, k: usize) -> Vec<Vec<usize>> {
